@@ -196,7 +196,7 @@ func (r *Run) Violation(fingerprint, what string, replay interface{}) {
 	_ = os.MkdirAll(dir, 0o755)
 	path := filepath.Join(dir, slugRe.ReplaceAllString(fingerprint, "_")+".json")
 	b, err := json.MarshalIndent(map[string]interface{}{
-		"property": r.Prop, "fingerprint": fingerprint, "what": what, "case": replay,
+		"property": r.Prop, "fingerprint": fingerprint, "what": what, "case": replay, "part": os.Getenv("VERIF_PART"),
 	}, "", " ")
 	if err == nil {
 		_ = os.WriteFile(path, b, 0o644)
